@@ -319,12 +319,14 @@ class World:
         if not self.objs or not rec['items']:
             return {'r': 'skip'}
         items = [self.ref(j) for j in rec['items']]
-        if any(len(o.model) == 0 for o in items):
-            return {'r': 'skip'}            # zero-valued item: behaviour left open
         if any((cname, o.cname) in DOCUMENTED_LIST_CONVERSIONS for o in items):
             return {'r': 'skip'}            # a documented conversion, not a wrong-class fault
         wrong = [o.cname for o in items if o.cname != cname]
         multi = [len(o.model) for o in items if len(o.model) > 1]
+        if any(len(o.model) == 0 for o in items):
+            if not (wrong or multi):
+                return {'r': 'skip'}        # only zero-valued items irregular: behaviour left open
+            self.probe('p_from_list_bad_item_next_to_empty_item')
         expect = 'raise' if (wrong or multi) else 'ok'
         if wrong:
             self.probe('f_from_list_wrong_class')
@@ -462,7 +464,8 @@ class World:
         if expect == 'skip':
             return {'r': 'skip'}
         i = int(rec['i'])
-        raised, r = self.run_call(lambda: x.real.insert(i, val), expect, 'insert')
+        ii = np.int64(i) if rec.get('npint') else i
+        raised, r = self.run_call(lambda: x.real.insert(ii, val), expect, 'insert')
         if raised:
             return {'r': 'raise:' + type(r).__name__}
         if i > len(x.model) or i < -len(x.model):
@@ -481,7 +484,8 @@ class World:
         inrange = -len(x.model) <= i < len(x.model)
         if expect == 'ok' and not inrange:
             expect = 'IndexError'
-        raised, r = self.run_call(lambda: x.real.__setitem__(i, val), expect, 'x[i] = y')
+        ii = np.int64(i) if rec.get('npint') else i
+        raised, r = self.run_call(lambda: x.real.__setitem__(ii, val), expect, 'x[i] = y')
         if raised:
             return {'r': 'raise:' + type(r).__name__}
         if i < 0:
@@ -529,7 +533,8 @@ class World:
         if i is None:
             raised, r = self.run_call(lambda: x.real.pop(), expect, 'pop()')
         else:
-            raised, r = self.run_call(lambda: x.real.pop(int(i)), expect, 'pop(i)')
+            ii = np.int64(int(i)) if rec.get('npint') else int(i)
+            raised, r = self.run_call(lambda: x.real.pop(ii), expect, 'pop(i)')
         if raised:
             return {'r': 'raise:' + type(r).__name__}
         x.model[:] = m
@@ -549,7 +554,8 @@ class World:
             expect = 'ok'
         except IndexError:
             expect = 'IndexError'
-        raised, r = self.run_call(lambda: x.real.__delitem__(i), expect, 'del x[i]')
+        ii = np.int64(i) if rec.get('npint') else i
+        raised, r = self.run_call(lambda: x.real.__delitem__(ii), expect, 'del x[i]')
         if raised:
             return {'r': 'raise:' + type(r).__name__}
         x.model[:] = m
@@ -610,7 +616,8 @@ PROBES = ['slice_empty_result', 'slice_negative_step', 'slice_bound_beyond_len',
           'slice_negative_bound', 'self_extend', 'self_operand',
           'operand_shares_element_with_receiver', 'pop_empty', 'insert_beyond_end',
           'setitem_negative', 'get_negative', 'parent_into_child', 'child_into_parent',
-          'rejected_then_accepted', 'alloc_zero', 'from_list_ok', 'extend_by_len_0',
+          'rejected_then_accepted', 'alloc_zero', 'from_list_ok',
+          'from_list_bad_item_next_to_empty_item', 'extend_by_len_0',
           'extend_by_len_1', 'extend_by_len_2']
 
 MUTATORS = ('append', 'extend', 'insert', 'setitem', 'pop', 'del', 'reverse', 'clear')
@@ -734,9 +741,11 @@ def gen_step(world, cfg, rng):
                 'keep': rng.random() < 0.5}
     if op == 'pop':
         i = None if rng.random() < 0.4 else _index(rng, n, cfg, fault == 'bad_index')
-        return {'op': 'pop', 'x': xi, 'i': i, 'keep': rng.random() < 0.4}
+        return {'op': 'pop', 'x': xi, 'i': i, 'keep': rng.random() < 0.4,
+                'npint': rng.random() < 0.1}
     if op == 'del':
-        return {'op': 'del', 'x': xi, 'i': _index(rng, n, cfg, fault == 'bad_index')}
+        return {'op': 'del', 'x': xi, 'i': _index(rng, n, cfg, fault == 'bad_index'),
+                'npint': rng.random() < 0.1}
 
     def pick(pred):
         c = [k for k, o in enumerate(objs) if pred(o)]
@@ -760,6 +769,11 @@ def gen_step(world, cfg, rng):
             j = pick(lambda o: o.cname == cname and len(o.model) > 1)
             if j is not None:
                 items[rng.randrange(len(items))] = j
+                # a second irregular item (lengths that compensate each other: 0 + 2, 2 + 2, ...)
+                if len(items) > 1 and rng.random() < 0.5:
+                    j2 = pick(lambda o: o.cname == cname and len(o.model) != 1)
+                    if j2 is not None:
+                        items[rng.randrange(len(items))] = j2
         rec = {'op': 'from_list', 'cls': cname, 'items': items}
         if fault == 'wrong_class' and rng.random() < 0.3:
             rec['cls'] = rng.choice(cfg['classes'])
@@ -794,6 +808,8 @@ def gen_step(world, cfg, rng):
         rec['i'] = rng.randint(-7, 7) if rng.random() < 0.3 else rng.randint(-n - 1, n + 1)
     if op == 'setitem':
         rec['i'] = _index(rng, n, cfg, fault == 'bad_index')
+    if op in ('insert', 'setitem') and rng.random() < 0.1:
+        rec['npint'] = True
     return rec
 
 
